@@ -1,12 +1,12 @@
 import Mixin.Prelude.Proto
 import Mixin.Model.Membership
-import Mixin.Model.Custodian
+import Mixin.Model.CustodianLookup
 import Mixin.Driver.Membership
 /-! Line-protocol driver for C11: the membership ops of `Mixin.Driver.Membership` plus records written
 one by one through the real storage writers (`wnode`, accepted or rejected by the real code, the
 verdict travels in the model part) and the custodian history (`cwrite`, `cread`, `cfresh`). -/
 namespace Mixin.Driver.Views
-open Mixin.Proto Mixin.Membership Mixin.Custodian Mixin.Driver.Membership
+open Mixin.Proto Mixin.Membership Mixin.CustodianLookup Mixin.Driver.Membership
 
 structure VSt where
   m : St := default
